@@ -86,3 +86,38 @@ func verifDrainBetween(a, b int) []int {
 func verifDrainUntil(n int) []int {
 	return verifDrain(Until(n).(*ranger))
 }
+
+// ---- groupBy (C19) ----------------------------------------------------------------------------
+// Spec: with n = Len(xs) and g = ceil(n/size): groups are xs[j*g : min((j+1)*g, n)] for j < ceil(n/g)
+// (n == size: the single group xs); at most size groups; concatenation is xs.
+
+//@ spec ceildiv(n int, d int) int = n / d + ite(n % d != 0, 1, 0)
+//@ spec gbu(x any) reflect.Value = indirect(rvOf(x))
+// the value that is sliced: the sequence itself, or an addressable copy of an array passed by value
+//@ spec gbsrc(x any) reflect.Value = ite(rvKind(gbu(x)) == 17 && !rvAddressable(gbu(x)), rvElem(rvNew(rvType(gbu(x)))), gbu(x))
+//@ pred gbseq(size int, x any) = size > 0 && (rvKind(gbu(x)) == 17 || rvKind(gbu(x)) == 23)
+
+//@ func GroupBy
+//@ ensures badsize: size <= 0 ==> err != nil
+//@ ensures notseq: size > 0 && rvKind(indirect(rvOf(underlying))) != 17 && rvKind(indirect(rvOf(underlying))) != 23 ==> err != nil
+//@ ensures okseq: size > 0 && (rvKind(indirect(rvOf(underlying))) == 17 || rvKind(indirect(rvOf(underlying))) == 23) ==> err == nil
+//@ ensures single: gbseq(size, underlying) && rvLen(gbsrc(underlying)) == size ==> is(result, "*groupBy") && len(unbox(result, "*groupBy").group) == 1 && unbox(result, "*groupBy").group[0] == gbsrc(underlying) && unbox(result, "*groupBy").pos == 0
+//@ ensures parts: gbseq(size, underlying) && rvLen(gbsrc(underlying)) != size ==> is(result, "*groupBy") && unbox(result, "*groupBy").pos == 0 &&
+//@     (forall j int :: 0 <= j && j < len(unbox(result, "*groupBy").group) ==> unbox(result, "*groupBy").group[j] == rvSlice(gbsrc(underlying), j * ceildiv(rvLen(gbsrc(underlying)), size), min((j + 1) * ceildiv(rvLen(gbsrc(underlying)), size), rvLen(gbsrc(underlying)))))
+//@ ensures count: gbseq(size, underlying) && rvLen(gbsrc(underlying)) != size ==> len(unbox(result, "*groupBy").group) <= size &&
+//@     (rvLen(gbsrc(underlying)) == 0 ==> len(unbox(result, "*groupBy").group) == 0) &&
+//@     (rvLen(gbsrc(underlying)) > 0 ==> (len(unbox(result, "*groupBy").group) - 1) * ceildiv(rvLen(gbsrc(underlying)), size) < rvLen(gbsrc(underlying)) && rvLen(gbsrc(underlying)) <= len(unbox(result, "*groupBy").group) * ceildiv(rvLen(gbsrc(underlying)), size))
+//@ assigns fresh
+//@ loop 1: invariant size > 0 && groupSize >= 0 && (rvLen(u) > 0 ==> groupSize >= 1) && 0 <= pos && pos == len(group) * groupSize && (rvKind(u) == 23 || (rvKind(u) == 17 && rvAddressable(u)))
+//@ loop 1: invariant src: u == gbsrc(underlying) && rvLen(u) != size && groupSize == ceildiv(rvLen(u), size)
+//@ loop 1: invariant count: len(group) == 0 || (len(group) - 1) * groupSize < rvLen(u)
+//@ loop 1: invariant gsz: groupSize * size >= rvLen(u)
+//@ loop 1: invariant parts: forall j int :: 0 <= j && j < len(group) ==> group[j] == rvSlice(u, j * groupSize, min((j + 1) * groupSize, rvLen(u))) && rvValid(group[j])
+//@ loop 1: decreases rvLen(u) - pos
+
+//@ func (g *groupBy) Next
+//@ requires g.pos >= 0
+//@ requires items: forall j int :: 0 <= j && j < len(g.group) ==> rvValid(g.group[j]) && rvCanIface(g.group[j])
+//@ ensures some: old(g.pos) < len(g.group) ==> result == rvIface(g.group[old(g.pos)]) && g.pos == old(g.pos) + 1
+//@ ensures none: old(g.pos) >= len(g.group) ==> result == nil && g.pos == old(g.pos)
+//@ assigns g.pos
